@@ -364,8 +364,20 @@ pub fn c16_broadcast<S: Src>(s: &mut S, custom: usize) {
     vassert!(post.updates_len == pre.updates_len && post.enc_n == pre.enc_n && post.same_members(&pre), "c16: broadcast() touches no membership state and no update backlog");
 }
 
+/// `broadcast()` with an empty custom backlog (pending updates do not count): nothing at all happens
 pub fn c16_broadcast_empty<S: Src>(s: &mut S) {
-    c16_broadcast(s, 0)
+    let mut sh = Shape::k(2);
+    sh.backlog = 1;
+    sh.handler_arb = true;
+    sh.probe = false;
+    let mut f = arb_foca(s, sh);
+    let pre = snap(&f);
+    let mut rt = LogRt::new();
+    let r = f.broadcast(&mut rt);
+    let post = snap(&f);
+    vassert!(r.is_ok(), "c06: broadcast never fails with a total codec");
+    vassert!(rt.is_silent() && post.identical(&pre), "c16: broadcast sends nothing when the backlog is empty");
+    vcover!(pre.num_active == 2, "two candidates, nothing to send");
 }
 pub fn c16_broadcast_one<S: Src>(s: &mut S) {
     c16_broadcast(s, 1)
